@@ -485,6 +485,9 @@ def cbmc_sweep(tag, files_for_hash, jobs, make_cmd, prefix, tier_tag):
             return [job, "ok", [], ""]
         failed = sorted(set(re.findall(r"\] line \d+ (%s: [^:]+): FAILURE" % prefix, out)))
         if not failed:
+            # CBMC's own checks (bounds, pointers, unwinding): keep the property name of the line
+            failed = sorted(set(m.strip()[:160] for m in re.findall(r"^\[[^\]]+\] ([^\n]*): FAILURE$", out, re.M)))
+        if not failed:
             return [job, "tool-error", [], out[-600:] + r.stderr[-300:]]
         return [job, "fail", failed, out[-6000:]]
     with ThreadPoolExecutor(max_workers=14) as ex:
